@@ -187,4 +187,18 @@ def mayBeConsolidatable (pool : Pool) (c : Claim) (now : Int) : Bool :=
       | some t => elapsedSince ca t now
       | none => elapsedSince ca c.initAt now))
 
+/-- the nodeclaim.disruption controller has its say over the condition in a given run: the NodeClaim is live and
+    names an existing dynamic NodePool that can be read, and the API server accepts the status write.  Nothing else
+    is an excuse: in particular a failure of an UNRELATED step of the same run (the cloud provider's drift check
+    erroring, `faults.drift`) does not release the controller from withdrawing a condition that no longer holds. -/
+def controllerActs (faults : RFaults) (pool : Pool) (c : Claim) : Bool :=
+  !c.deleting && c.md.pool == .this && pool.present && !pool.static && !faults.poolGet && !faults.patch
+
+/-- the persisted Consolidatable status `after` a run of the controller at instant `now` on NodeClaim `c` is
+    acceptable: when the controller has its say, True requires the window to have elapsed; when it has not, True
+    may only be left over from before -/
+def conditionAcceptable (faults : RFaults) (pool : Pool) (c : Claim) (now : Int) (after : Cond) : Bool :=
+  after != .true_ ||
+  (if controllerActs faults pool c then mayBeConsolidatable pool c now else c.consolidatable == .true_)
+
 end Karp.Spec.Protected
